@@ -50,6 +50,10 @@ type World struct {
 type Process struct {
 	env   *Env
 	ctrls map[string]reconciler
+	// seen counts the passes each (controller, object) had in this process, capped at 2. It is
+	// part of World.Canon, so that states which differ only in what the process may remember
+	// (a first pass vs. a repeated pass on the same object) are not merged by the search.
+	seen map[string]int
 }
 
 // LongLived makes all further passes on w run in one long-lived process.
@@ -382,6 +386,12 @@ func (w *World) Reconcile(kind string, key types.NamespacedName, plan *Plan) *Pa
 		}
 		e = w.Proc.env
 		e.retarget(p.Actor, p, plan)
+		if w.Proc.seen == nil {
+			w.Proc.seen = map[string]int{}
+		}
+		if w.Proc.seen[p.Actor] < 2 {
+			w.Proc.seen[p.Actor]++
+		}
 		if c = w.Proc.ctrls[kind]; c == nil {
 			c = e.controller(kind)
 			w.Proc.ctrls[kind] = c
@@ -471,6 +481,14 @@ func (w *World) Canon() string {
 	}
 	sort.Strings(bs)
 	fmt.Fprintf(&sb, "budget %v\n", bs)
+	if w.Proc != nil {
+		var ps []string
+		for k, v := range w.Proc.seen {
+			ps = append(ps, fmt.Sprintf("%s=%d", k, v))
+		}
+		sort.Strings(ps)
+		fmt.Fprintf(&sb, "process %v\n", ps)
+	}
 	var ns []string
 	for k, v := range w.Notes {
 		ns = append(ns, k+"="+v)
